@@ -208,6 +208,9 @@ func c09GenQci(rng *rand.Rand) ([]QciQosConfig, map[uint8]c09Qci) {
 	n := rng.Intn(5)
 	for i := 0; i < n; i++ {
 		q := uint8(rng.Intn(12))
+		if rng.Intn(4) == 0 {
+			q = []uint8{65, 69, 70, 128, 254, 6 + 64, 9 + 64, 9 + 128}[rng.Intn(8)]
+		}
 		if i == 0 && rng.Intn(2) == 0 {
 			q = 0
 		}
@@ -295,6 +298,10 @@ func TestVerif_C09(t *testing.T) {
 		var qs []vQERSpec
 		for i := 0; i < nq; i++ {
 			q := vQERSpec{ID: uint32(i + 1), HasQFI: true, QFI: uint8(rng.Intn(64)), HasMBR: true, MBRUL: c09Rate(rng), MBRDL: c09Rate(rng)}
+			if rng.Intn(5) == 0 {
+				// the whole octet: the agent's configuration is keyed by QCI (4G values such as 65-70, 128-254 included)
+				q.QFI = uint8(64 + rng.Intn(192))
+			}
 			if rng.Intn(8) != 0 && len(qcis) > 0 && rng.Intn(2) == 0 {
 				for k := range qcis {
 					q.QFI = k
@@ -593,7 +600,7 @@ func c09UP4(res *vResult) {
 		}
 		est := c10Session(2, uint64(0xA000+hi), 1000+hi%50000)
 		mkq := func(id uint32) vQERSpec {
-			q := vQERSpec{ID: id, HasQFI: true, QFI: []uint8{0, 1, 5, 9, 32, 63, uint8(rng.Intn(64))}[rng.Intn(7)], HasMBR: true, MBRUL: c09Rate(rng), MBRDL: c09Rate(rng)}
+			q := vQERSpec{ID: id, HasQFI: true, QFI: []uint8{0, 1, 5, 9, 32, 63, uint8(rng.Intn(64)), uint8(64 + rng.Intn(192))}[rng.Intn(8)], HasMBR: true, MBRUL: c09Rate(rng), MBRDL: c09Rate(rng)}
 			if rng.Intn(6) == 0 {
 				q.GateUL, q.GateDL = uint8(rng.Intn(2)), uint8(rng.Intn(2))
 			}
